@@ -269,25 +269,30 @@ def _c19_worker(args):
                     exact = Fraction(int(num), int(den))
                     st["streak"] = int(streak)
                     ok = abs(float(exact) - rew) <= 1e-9 * max(1.0, abs(float(exact)))
-                    # independent reading of the property
+                    # independent reading of the property, applied to the IMPLEMENTATION's reward
                     dense = Fraction(0) if st["streak"] < info0["njobs"] else Fraction(-1, info0["nops"])
+
+                    def near(x, y):
+                        return abs(float(x) - float(y)) <= 1e-9 * max(1.0, abs(float(y)))
                     if not term and not trunc:
-                        if exact != fd * dense or not (exact <= 0):
-                            out["violations"].append({"kind": "reward:nonfinal", "detail": "non-final reward %s is not the "
-                                                      "shaping term" % exact, "replay": {"query": q}})
+                        if not near(rew, fd * dense) or not (rew <= 0):
+                            out["violations"].append({"kind": "reward:nonfinal", "detail": "non-final reward %r is not the "
+                                                      "shaping term %s" % (rew, fd * dense), "replay": {"query": q, "dsl": d}})
                     if trunc and not term:
                         out["truncated"] += 1
-                        if exact - fd * dense != ft:
-                            out["violations"].append({"kind": "reward:truncation", "detail": "truncated: sparse part %s != "
-                                                      "truncation_bias %s" % (exact - fd * dense, ft), "replay": {"query": q}})
+                        if not near(rew - float(fd * dense), ft):
+                            out["violations"].append({"kind": "reward:truncation", "detail": "truncated: reward without shaping "
+                                                      "%r != truncation_bias %s (sparse_bias %s)" % (rew - float(fd * dense), ft, fs),
+                                                      "replay": {"query": q, "dsl": d}})
                     if term:
                         out["terminal"] += 1
                         main = (exact - fd * dense) / fs
                         expect = Fraction(info0["tmax"] - t, info0["tmax"] - info0["lb"])
-                        if main != expect:
-                            out["violations"].append({"kind": "reward:terminal", "detail": "main term %s != %s" % (main, expect),
-                                                      "replay": {"query": q}})
-                        finished.append((t, main, rew))
+                        if main != expect or not near((rew - float(fd * dense)) / float(fs), expect):
+                            out["violations"].append({"kind": "reward:terminal", "detail": "main term %s (impl %r) != %s"
+                                                      % (main, (rew - float(fd * dense)) / float(fs), expect),
+                                                      "replay": {"query": q, "dsl": d}})
+                        finished.append((t, Fraction((rew - float(fd * dense)) / float(fs)).limit_denominator(10**9), rew))
                 if not ok:
                     out["disagreements"].append({"where": "reward", "replay": {"query": q, "model": m, "impl": rew}})
                 if len(out["samples"]) < 2 and term:
@@ -694,6 +699,29 @@ def gen_doc(rng, big=False):
         gen.gen_custom_buffers(rng, d, nj)
         if rng.random() < 0.5:   # a third, compensation buffer
             ic["buffer"].append({"name": "b-2", "type": "flex_buffer", "capacity": nj, "role": "compensation"})
+    # standalone buffers numbered ahead of the generated ids (b-0, b-1, b-7): generated ids must avoid them
+    if "buffer" in ic and rng.random() < 0.5:
+        nums = rng.sample(range(3, 12), len(ic["buffer"]))
+        ren = {}
+        for b, n in zip(ic["buffer"], nums):
+            if rng.random() < 0.6:
+                ren[b["name"]] = "b-%d" % n
+                b["name"] = "b-%d" % n
+        feats["renumbered_buffers"] = True
+    # matrix rows in another order than the header columns (each row keeps its own label)
+    if "logistics" in ic and rng.random() < 0.4:
+        ls = [l for l in ic["logistics"]["specification"].split("\n") if l.strip()]
+        rows = ls[1:]
+        rng.shuffle(rows)
+        ic["logistics"]["specification"] = "\n".join([ls[0]] + rows) + "\n"
+        feats["permuted_travel_rows"] = True
+    if "setup_times" in ic and rng.random() < 0.4:
+        for e in ic["setup_times"]:
+            ls = [l for l in e["specification"].split("\n") if l.strip()]
+            rows = ls[1:]
+            rng.shuffle(rows)
+            e["specification"] = "\n".join([ls[0]] + rows) + "\n"
+        feats["permuted_setup_rows"] = True
     # layout variants
     if rng.random() < 0.5:
         ic["instance"]["specification"] = "\n".join(
@@ -819,6 +847,51 @@ def _hash_probe(payload):
     return json.loads(line[2:])
 
 
+def _direct_compile_oracles(d, inst, st):
+    """Independent readings of the document compared with the compiled instance (no model involved):
+    identifier uniqueness (C17) and the directed travel-time table (C16)."""
+    vs = []
+    ids = [m.id for m in inst.machines] + [t.id for t in inst.transports] + [b.id for b in inst.buffers]
+    for m in inst.machines:
+        ids += [m.prebuffer.id, m.buffer.id, m.postbuffer.id]
+    ids += [t.buffer.id for t in inst.transports]
+    for j in inst.instance.specification:
+        ids.append(j.id)
+        ids += [o.id for o in j.operations]
+    dup = sorted(k for k, n in collections.Counter(ids).items() if n > 1)
+    if dup:
+        vs.append({"kind": "ids:duplicate", "detail": "compiled instance has duplicate identifiers %s" % dup[:4],
+                   "replay": {"dsl": d}, "facts": {"n": len(dup)}})
+    sids = [x.id for grp in (st.jobs, st.machines, st.transports, st.buffers) for x in grp]
+    for m in st.machines:
+        sids += [m.prebuffer.id, m.buffer.id, m.postbuffer.id]
+    sids += [t.buffer.id for t in st.transports]
+    dup = sorted(k for k, n in collections.Counter(sids).items() if n > 1)
+    if dup:
+        vs.append({"kind": "ids:duplicate_state", "detail": "compiled initial state has duplicate identifiers %s" % dup[:4],
+                   "replay": {"dsl": d}, "facts": {"n": len(dup)}})
+    lg = d["instance_config"].get("logistics")
+    if lg and "specification" in lg and "time_behavior" not in lg:
+        ls = [l for l in lg["specification"].split("\n") if l.strip()]
+        hdr = [h.strip() for h in ls[0].split("|")]
+        tt = inst.logistics.travel_times
+        # names of the default buffers as the mapper resolves them: compare only machine-to-machine entries,
+        # whose naming is unambiguous
+        for l in ls[1:]:
+            lab, vals = l.split("|", 1)
+            lab = lab.strip()
+            vals = vals.split()
+            for h, v in zip(hdr, vals):
+                if lab.startswith("m-") and h.startswith("m-"):
+                    got = tt.get((lab, h))
+                    if got is None or getattr(got, "time", None) != int(v):
+                        vs.append({"kind": "travel:wrong_entry", "detail": "document says travel %s -> %s takes %s, compiled "
+                                   "instance says %s" % (lab, h, v, getattr(got, "time", got)), "replay": {"dsl": d},
+                                   "facts": {}})
+                        return vs
+    return vs
+
+
 def _dsl_worker(args):
     seed, n, big, prop = args
     import dsl_tok
@@ -842,6 +915,8 @@ def _dsl_worker(args):
             out["sections"]["init_state"] += 1
         try:
             inst, st = jsl.compile_dict(d, cfg)
+            for v in _direct_compile_oracles(d, inst, st):
+                out["violations"].append(v)
             c = jsl.Codec(inst, True)
             impl = "(ok %s %s %s)" % (c.inst_sx, c.state(st), c.labels_sx())
         except jsl.Unsupported as e:
@@ -967,7 +1042,7 @@ def _dsl_check(ctx, prop):
 
 def c16(ctx):
     _dsl_check(ctx, "C16")
-    ctx.violations = [v for v in ctx.violations if not v["kind"].startswith("init:")]
+    ctx.violations = [v for v in ctx.violations if not v["kind"].startswith("init:") and not v["kind"].startswith("ids:")]
     # spec files and the equivalent DSL text compile to the same problem
     from pathlib import Path
     from jobshoplab.compiler import Compiler
@@ -1001,7 +1076,8 @@ def c16(ctx):
 
 def c17(ctx):
     docs = _dsl_check(ctx, "C17")
-    ctx.violations = [v for v in ctx.violations if v["kind"].startswith("init:") or v["kind"] == "compile:wellformed_rejected"]
+    ctx.violations = [v for v in ctx.violations if v["kind"].startswith("init:") or v["kind"].startswith("ids:")
+                      or v["kind"] == "compile:wellformed_rejected"]
     # same text, other interpreter processes with different string hashing
     docs = docs[: (16 if ctx.quick() else 80)]
     seeds = [0, 1, 4242, 31337] if ctx.quick() else [0, 1, 2, 3, 17, 4242, 31337, 99991]
